@@ -29,12 +29,25 @@ ENCODES = ['pexpect.screen.screen.put_abs', 'pexpect.screen.screen.put', 'pexpec
            'pexpect.screen.screen.get', 'pexpect.screen.screen.get_region', 'pexpect.screen.screen.dump',
            'pexpect.screen.screen.pretty', 'pexpect.screen.screen._unicode', 'pexpect.screen.constrain']
 STUBS = []
-ASSUMPTIONS = ['screen 3x4 (rows x cols) with distinct cell contents; cursor and scroll region: every valid state',
+ASSUMPTIONS = ['screen 3x4 (rows x cols) in the quick tier, also 1x1, 1x3, 2x1 and 4x5 in the thorough tier, with distinct cell contents; cursor and scroll region: every valid state',
                'operation arguments: unbounded mathematical integers',
                'documentation silent => nothing asserted: content of the row vacated by scroll_up/scroll_down, '
                'direction of the scroll in cursor_up_reverse at the top row']
 ROWS, COLS = 3, 4
 CELLS = 'abcdefghijkl'
+# quick: 3x4; the thorough tier repeats every obligation on degenerate and larger screens
+SHAPES = [(3, 4), (1, 1), (1, 3), (2, 1), (4, 5)]
+
+
+def _set_shape(k):
+    """select the screen size for this run of an obligation (each analysis process works on one concrete shape)"""
+    global ROWS, COLS, CELLS
+    ROWS, COLS = SHAPES[k]
+    CELLS = 'abcdefghijklmnopqrst'[:ROWS * COLS]
+
+
+def _off_screen(cr, cc, rs, re, sr, sc):
+    return cr > ROWS or rs > ROWS or re > ROWS or sr > ROWS or cc > COLS or sc > COLS
 
 
 def mk_screen(cr, cc, rs, re, sr, sc):
@@ -99,6 +112,9 @@ def fill_ref(g, rs, cs, re, ce, ch):
 
 _STATE = dict(cr=Int(1, ROWS), cc=Int(1, COLS), rs=Int(1, ROWS), re=Int(1, ROWS), sr=Int(1, ROWS), sc=Int(1, COLS))
 
+_THOROUGH = dict(params=dict(shape=Int(0, 4), cr=Int(1, 4), cc=Int(1, 5), rs=Int(1, 4), re=Int(1, 4), sr=Int(1, 4),
+                             sc=Int(1, 5)), split=('shape', 'op'), timeout=1800)
+
 CURSOR_OPS = ['cursor_home', 'cursor_force_position', 'cursor_back', 'cursor_forward', 'cursor_up', 'cursor_down',
               'cursor_save', 'cursor_save_attrs', 'cursor_unsave', 'cursor_restore_attrs', 'cr', 'cursor_up_reverse',
               'cursor_home()']
@@ -109,10 +125,13 @@ WRITE_OPS = ['put_abs', 'put', 'insert_abs', 'insert', 'fill_region', 'fill', 'e
 
 
 @obligation(params=dict(op=Int(0, 11), a=Int(), b=Int(), c=Int(), d=Int(), **_STATE),
-            tags={2 + k: n for k, n in enumerate(WRITE_OPS)}, timeout=900, split=('op',),
+            tags={2 + k: n for k, n in enumerate(WRITE_OPS)}, timeout=900, split=('op',), thorough=_THOROUGH,
             note='cell-writing operations: exactly the documented cells change, the cursor, saved cursor and scroll '
                  'region do not')
-def W1_writes(op, a, b, c, d, cr, cc, rs, re, sr, sc):
+def W1_writes(op, a, b, c, d, cr, cc, rs, re, sr, sc, shape=0):
+    _set_shape(pick(shape, 0, 4))
+    if _off_screen(cr, cc, rs, re, sr, sc):
+        return SKIP
     op = pick(op, 0, 11)
     s = mk_screen(cr, cc, rs, re, sr, sc)
     g = ref_grid()
@@ -171,10 +190,13 @@ def W1_writes(op, a, b, c, d, cr, cc, rs, re, sr, sc):
 
 
 @obligation(params=dict(op=Int(0, 12), a=Int(), b=Int(), **_STATE),
-            tags={2 + k: n for k, n in enumerate(CURSOR_OPS)}, timeout=600, split=('op',),
+            tags={2 + k: n for k, n in enumerate(CURSOR_OPS)}, timeout=600, split=('op',), thorough=_THOROUGH,
             note='cursor operations: only the documented cursor fields change, coordinates outside the screen are the '
                  'nearest edge, no cell changes (Reverse Index at the top row may scroll: only the frame is asserted)')
-def W2_cursor(op, a, b, cr, cc, rs, re, sr, sc):
+def W2_cursor(op, a, b, cr, cc, rs, re, sr, sc, shape=0):
+    _set_shape(pick(shape, 0, 4))
+    if _off_screen(cr, cc, rs, re, sr, sc):
+        return SKIP
     op = pick(op, 0, 12)
     s = mk_screen(cr, cc, rs, re, sr, sc)
     er, ec, esr, esc = cr, cc, sr, sc
@@ -232,10 +254,13 @@ def W2_cursor(op, a, b, cr, cc, rs, re, sr, sc):
 
 @obligation(params=dict(op=Int(0, 6), a=Int(), b=Int(), **_STATE),
             tags={2 + k: n for k, n in enumerate(SCROLL_OPS)}, timeout=600,
-            split=('op',),
+            split=('op',), thorough=_THOROUGH,
             note='scrolling: rows inside the region shift by one, rows outside and all columns keep their content, the '
                  'grid keeps its shape for every region; region setters clamp into the screen; lf/crlf/newline')
-def W3_scroll(op, a, b, cr, cc, rs, re, sr, sc):
+def W3_scroll(op, a, b, cr, cc, rs, re, sr, sc, shape=0):
+    _set_shape(pick(shape, 0, 4))
+    if _off_screen(cr, cc, rs, re, sr, sc):
+        return SKIP
     op = pick(op, 0, 6)
     s = mk_screen(cr, cc, rs, re, sr, sc)
     g0 = ref_grid()
@@ -315,9 +340,12 @@ def W3_scroll(op, a, b, cr, cc, rs, re, sr, sc):
 
 
 @obligation(params=dict(op=Int(0, 5), a=Int(), b=Int(), c=Int(), d=Int(), **_STATE),
-            tags={2 + k: n for k, n in enumerate(ACC_OPS)}, timeout=600, split=('op',),
+            tags={2 + k: n for k, n in enumerate(ACC_OPS)}, timeout=600, split=('op',), thorough=_THOROUGH,
             note='read accessors (get, get_abs, get_region, dump, str, pretty) all describe the same grid and change nothing')
-def W4_accessors(op, a, b, c, d, cr, cc, rs, re, sr, sc):
+def W4_accessors(op, a, b, c, d, cr, cc, rs, re, sr, sc, shape=0):
+    _set_shape(pick(shape, 0, 4))
+    if _off_screen(cr, cc, rs, re, sr, sc):
+        return SKIP
     op = pick(op, 0, 5)
     s = mk_screen(cr, cc, rs, re, sr, sc)
     g = ref_grid()
@@ -342,10 +370,11 @@ def W4_accessors(op, a, b, c, d, cr, cc, rs, re, sr, sc):
         if s.dump() != CELLS:
             return 0
     elif op == 4:
-        if str(s) != 'abcd\nefgh\nijkl':
+        if str(s) != '\n'.join(CELLS[i * COLS:(i + 1) * COLS] for i in range(ROWS)):
             return 0
     else:
-        if s.pretty() != '+----+\n|abcd|\n|efgh|\n|ijkl|\n+----+\n':
+        frame = '+' + '-' * COLS + '+\n'
+        if s.pretty() != frame + ''.join('|' + CELLS[i * COLS:(i + 1) * COLS] + '|\n' for i in range(ROWS)) + frame:
             return 0
     if not same(s, g) or (s.cur_r, s.cur_c, s.scroll_row_start, s.scroll_row_end) != (cr, cc, rs, re):
         return 0
@@ -362,6 +391,14 @@ def dry_runs():
         yield 'W3_scroll', dict(op=op, a=0, b=9, **dict(st, cr=3))
     for op in range(6):
         yield 'W4_accessors', dict(op=op, a=2, b=9, c=-1, d=2, **st)
+    for shape in (1, 2, 3, 4):
+        one = dict(cr=1, cc=1, rs=1, re=1, sr=1, sc=1)
+        for op in range(12):
+            yield 'W1_writes', dict(op=op, a=2, b=9, c=-1, d=2, shape=shape, **one)
+        for op in range(7):
+            yield 'W3_scroll', dict(op=op, a=0, b=9, shape=shape, **one)
+        for op in range(6):
+            yield 'W4_accessors', dict(op=op, a=2, b=9, c=-1, d=2, shape=shape, **one)
 
 
 PROBES = ['screen']      # representation probes (harness/probes.py) this harness depends on
@@ -373,6 +410,6 @@ MANIFEST_ENTRY = {
                   'cursor / scroll region as symbolic pre-state, UNBOUNDED symbolic integer arguments; exact cell-by-'
                   'cell and field-by-field equality (frame condition included) after one operation, which covers '
                   'operation sequences of any length by induction; read accessors agree with the grid.',
-    'level_note': 'Screen size fixed at 3x4 (the code is uniform in rows/cols); nothing asserted where the docstrings '
+    'level_note': 'Screen size 3x4 (quick), plus 1x1, 1x3, 2x1, 4x5 (thorough); nothing asserted where the docstrings '
                   'are silent (vacated row content, Reverse Index scroll direction).',
 }
